@@ -304,7 +304,10 @@ func c27Run(f []string) string {
 var c27Names = []string{"deploy", "load", "", "a b", "tab\there", "nl\nx", "k=v", "日本", "user", "query", "x,y", "ü:1", "*"}
 var c27FilterItems = []string{"member-join", "member-leave", "member-failed", "member-update", "member-reap", "user", "query", "*",
 	"user:deploy", "query:load", "user:", "query:", "user:a b", "query:日本", "user:load", "query:deploy", "member-bogus", "", "user:k", "USER", "query:x"}
-var c27TagKeys = []string{"role", "dc", "a-b", "ünï", "x.y", "9lives", "k=v", "sp ace", "ıſ", "UP", ""}
+// tag NAMES are free-form strings too: tabs, newlines, '=' and ',' in them must be escaped in the
+// member line exactly like in names, roles and values
+var c27TagKeys = []string{"role", "dc", "a-b", "ünï", "x.y", "9lives", "k=v", "sp ace", "ıſ", "UP", "",
+	"rack\tid", "note\nx", "a,b", "e=q\t,\n", "\t", "\n"}
 var c27TagVals = []string{"web", "", "east 1", "a=b,c", "tab\there", "line\nbreak", "日本", "ü", "\x01\x7f"}
 
 func c27ShowTags(rng *rand.Rand, maxN int, keys []string) string {
@@ -337,6 +340,27 @@ func c27GenEvent(rng *rand.Rand) (string, string) {
 	default:
 		return "q/" + hexs(c27Names[rng.Intn(len(c27Names))]) + "/" + hexs(c27Payload(rng)), "query"
 	}
+}
+
+// c27AwkwardTagName: some member of the event carries a tag whose name contains a tab or newline.
+func c27AwkwardTagName(ev string) bool {
+	f := strings.Split(ev, "/")
+	if len(f) != 2 || f[1] == "_" {
+		return false
+	}
+	for _, m := range strings.Split(f[1], "+") {
+		p := strings.Split(m, "~")
+		if len(p) != 3 || p[2] == "_" {
+			continue
+		}
+		for _, kv := range strings.Split(p[2], ",") {
+			k := unhex(strings.Split(kv, ":")[0])
+			if bytes.ContainsAny(k, "\t\n") {
+				return true
+			}
+		}
+	}
+	return false
 }
 
 func c27Payload(rng *rand.Rand) string {
@@ -407,6 +431,8 @@ func c27Gen(rng *rand.Rand, tier string) []Case {
 		{"run " + hexs("query") + " " + hexs("n1") + " _ q/" + hexs("load") + "/" + hexs("x") + " 8192 4 0 12000"},
 		{"run " + hexs("query:load") + "," + hexs("*") + " " + hexs("n1") + " _ q/" + hexs("load") + "/- 500 5 0 1024"},
 		{"run " + hexs("member-join,member-join") + ",! " + hexs("node\t1") + " " + c30ShowTags(map[string]string{"role": "a\tb", "a-b": "1"}) + " mj/" + hexs("m\n1") + "~10.0.0.1~" + c30ShowTags(map[string]string{"role": "r\n", "t": "a,b=c"}) + "+" + hexs("m2") + "~nil~_ 10 1 0 1024"},
+		{"run " + hexs("member-update") + " " + hexs("n") + " " + c30ShowTags(map[string]string{"rack\tid": "r1", "k=v": "x"}) + " mu/" + hexs("web") + "~1.2.3.4~" + c30ShowTags(map[string]string{"role": "we\tb", "rack\tid": "r1"}) + "+" + hexs("db1") + "~1.2.3.5~" + c30ShowTags(map[string]string{"note\nx": "y", "a,b": "c=d"}) + " 0 1 0 1024"},
+		{"run " + hexs("*") + " " + hexs("n") + " _ mf/" + hexs("m") + "~nil~" + c30ShowTags(map[string]string{"\n": "v"}) + "+" + hexs("m2") + "~9.9.9.9~" + c30ShowTags(map[string]string{"\t": "", "e=q\t,\n": "\t"}) + " 5 2 0 1024"},
 		{"run " + hexs("user:deploy") + "," + hexs("user") + " " + hexs("n") + " _ u/" + hexs("deploy") + "/18446744073709551615/" + hexs("no newline") + " 0 1 0 1024"},
 		{"run " + hexs("user") + " " + hexs("n") + " _ u/" + hexs("a\x00b") + "/7/" + hexs("p") + " 0 1 0 1024"},
 	}
@@ -446,6 +472,9 @@ func c27Gen(rng *rand.Rand, tier string) []Case {
 		}
 		self := c27Names[rng.Intn(len(c27Names))] + "-self"
 		tags := []string{"run", kind}
+		if c27AwkwardTagName(e) {
+			tags = append(tags, "tag-name-with-tab-or-newline")
+		}
 		selfTagKeys := c27TagKeys
 		if rng.Intn(4) != 0 {
 			selfTagKeys = []string{"role", "dc", "ünï", "9lives", "x.y", ""} // no two collapse to the same variable
@@ -465,7 +494,7 @@ func c27Gen(rng *rand.Rand, tier string) []Case {
 func init() {
 	register(&Prop{
 		ID:   "C27",
-		Rule: "pure: ParseEventScript on generated specs and EventFilter.Invoke on generated filters x events (names with tabs, newlines, '=', non-ASCII, empty); runs: the real ScriptEventHandler.HandleEvent with 1-3 /bin/sh scripts recording environment and stdin, member events with 0-3 members (names/tags with tabs, newlines, '=', ',' and non-ASCII, nil address), user events, real queries on a real node (payload with/without trailing newline, empty, binary), script output 0 / small / around 1024 / around 8192 bytes, non-zero exit; non-trivial = pure case, or a run whose script prints output",
+		Rule: "pure: ParseEventScript on generated specs and EventFilter.Invoke on generated filters x events (names with tabs, newlines, '=', non-ASCII, empty); runs: the real ScriptEventHandler.HandleEvent with 1-3 /bin/sh scripts recording environment and stdin, member events with 0-3 members (member names, roles, tag NAMES and tag values with tabs, newlines, '=', ',' and non-ASCII, nil address), user events, real queries on a real node (payload with/without trailing newline, empty, binary), script output 0 / small / around 1024 / around 8192 bytes, non-zero exit; non-trivial = pure case, or a run whose script prints output",
 		Gen:  c27Gen,
 		Exec: c27Exec,
 	})
